@@ -463,7 +463,7 @@ _CONSUMERS = {'list', 'tuple', 'set', 'frozenset', 'sorted', 'sum', 'min', 'max'
 _WRAPPERS = {'enumerate', 'zip', 'map', 'filter', 'tqdm', 'progress_bar', 'chain', 'islice', 'chunked', 'iter'}
 
 
-def consumption_sites(A: Analysis, func: FuncInfo, name: str):
+def consumption_sites(A: Analysis, func: FuncInfo, name: str, depth: int = 1):
     """AST nodes at which the iterable held by local / parameter `name` is (partly) consumed: a loop or comprehension over it,
     a collecting builtin, iter()/next() - directly or through lazy wrappers (enumerate, zip, tqdm, progress_bar, ...).  For a
     one-shot iterator (a generator handed in by the caller) every site sees only what the earlier ones left."""
@@ -501,6 +501,22 @@ def consumption_sites(A: Analysis, func: FuncInfo, name: str):
                 sites.append(n)
         elif isinstance(n, ast.Starred) and wraps(n.value):
             sites.append(n)
+        if isinstance(n, ast.Call) and depth > 0 and n not in sites and src(n.func).split('.')[-1] not in _CONSUMERS | _WRAPPERS:
+            # handed to a function of the package that iterates the corresponding parameter
+            passed = [i for i, a in enumerate(n.args) if wraps(a)] + [kw.arg for kw in n.keywords if kw.arg and wraps(kw.value)]
+            if passed:
+                from ..types import Ctx as _Ctx
+                for tg in A.typer.call_targets(n, _Ctx(func, None))[:3]:
+                    g = tg.func if tg.kind == 'func' else None
+                    if g is None or g is func:
+                        continue
+                    ba = bound_args(n, g) or {}
+                    for pn, av in ba.items():
+                        if isinstance(pn, str) and pn in g.params and wraps(av) and consumption_sites(A, g, pn, depth - 1):
+                            sites.append(n)
+                            break
+                    if n in sites:
+                        break
     return sites
 
 
@@ -509,6 +525,24 @@ def consumed_more_than_once(A: Analysis, func: FuncInfo, name: str):
     another, or a site that does not exhaust it - next() - is followed by one), else None."""
     cfg = A.cfg(func, inline=False)
     sites = consumption_sites(A, func, name)
+    # `name = list(name)` (tuple / sorted / set): from there on the name holds a re-iterable collection; paths on which a type test
+    # found the value to be a single object (isinstance(name, ...) / type(name) is ... true) do not carry an iterator at all
+    mat = [n for n in A.typer.own_nodes(func) if isinstance(n, ast.Assign) and len(n.targets) == 1 and isinstance(n.targets[0], ast.Name) and n.targets[0].id == name and
+           isinstance(n.value, (ast.Call, ast.List, ast.Tuple, ast.ListComp)) and (not isinstance(n.value, ast.Call) or src(n.value.func) in ('list', 'tuple', 'sorted', 'set', 'frozenset'))]
+    safe = {c.id for m_ in mat for c in cfg_nodes_for(cfg, m_)}
+    for c in cfg.nodes.values():
+        if c.kind == 'edge' and c.label == 'T' and c.ast is not None:
+            t_ = src(c.ast)
+            if t_.startswith(f'isinstance({name},') or t_.startswith(f'type({name}) is ') or t_.startswith(f'type({name}) =='):
+                safe.add(c.id)
+    if safe:
+        sites = [st for st in sites if not (isinstance(st, ast.Call) and any(st is m_.value for m_ in mat))]
+        live = []
+        for st in sites:
+            sid = [c.id for c in (cfg.nodes.values() if isinstance(st, (ast.For, ast.AsyncFor)) else cfg_nodes_for(cfg, st)) if (c.kind == 'for' and c.ast is st) or not isinstance(st, (ast.For, ast.AsyncFor))]
+            if not sid or cfg.find_path([cfg.entry.id], sid, avoid=safe) is not None:
+                live.append(st)
+        sites = live
 
     def ids(n):
         if isinstance(n, ast.comprehension):
@@ -517,6 +551,33 @@ def consumed_more_than_once(A: Analysis, func: FuncInfo, name: str):
         if isinstance(n, (ast.For, ast.AsyncFor)):
             return [c.id for c in cfg.nodes.values() if c.kind == 'for' and c.ast is n]
         return [c.id for c in cfg_nodes_for(cfg, n)]
+    # uses of the same (not rebound) name inside nested functions: the closure consumes what the enclosing function left
+    nested_sites = []
+    stack = list(func.nested.values())
+    while stack:
+        g = stack.pop()
+        stack.extend(g.nested.values())
+        if name in g.params or any(isinstance(x, ast.Name) and x.id == name and isinstance(x.ctx, ast.Store) for x in A.typer.own_nodes(g)):
+            continue
+        gs = consumption_sites(A, g, name, depth=0)
+        if not gs:
+            continue
+        # where the enclosing function uses the closure (calls it / hands it on): reached after one of its own consumption sites?
+        refs = [x for x in A.typer.own_nodes(func) if isinstance(x, ast.Name) and isinstance(x.ctx, ast.Load) and x.id == g.name]
+        ref_ids = [c.id for r_ in refs for c in cfg_nodes_for(cfg, r_)]
+        for a in sites:
+            aid = [c.id for c in cfg.nodes.values() if c.kind == 'for' and c.ast is a] if isinstance(a, (ast.For, ast.AsyncFor)) else \
+                [c.id for c in cfg_nodes_for(cfg, getattr(a, '_parent', a) if isinstance(a, ast.comprehension) else a)]
+            if aid and ref_ids and cfg.find_path([s_ for x in aid for s_ in cfg.g.successors(x)], ref_ids) is not None:
+                return a, gs[0]
+    for a in sites:
+        # one site that runs once per iteration of a loop around it
+        anchor = a if not isinstance(a, ast.comprehension) else getattr(a, '_parent', a)
+        p_ = getattr(anchor, '_parent', None)
+        while p_ is not None and not isinstance(p_, (ast.FunctionDef, ast.AsyncFunctionDef, ast.Lambda)):
+            if isinstance(p_, (ast.For, ast.AsyncFor, ast.While)) and p_ is not a:
+                return p_, a
+            p_ = getattr(p_, '_parent', None)
     for i, a in enumerate(sites):
         for j, b in enumerate(sites):
             if i == j:
@@ -526,3 +587,72 @@ def consumed_more_than_once(A: Analysis, func: FuncInfo, name: str):
                 if (getattr(a, 'lineno', 0), getattr(a, 'col_offset', 0)) <= (getattr(b, 'lineno', 0), getattr(b, 'col_offset', 0)) or not (set(ia) & set(ib)):
                     return a, b
     return None
+
+
+_LAZY = {'map', 'filter', 'zip', 'iter', 'enumerate', 'reversed', 'chain', 'islice', 'iglob', 'glob', 'iterdir', 'scandir', 'items_iter'}
+
+
+def oneshot_reuse(A: Analysis, func: FuncInfo):
+    """Locals bound once to a one-shot iterator (generator expression, map / filter / zip / iter / enumerate ... object) that
+    some execution consumes more than once: consumed at two sites connected by a path, or at a site inside a loop the
+    iterator was created outside of (the second iteration of that loop finds it exhausted).  [(name, defining node, site)]"""
+    out = []
+    defs = {}
+    for n in A.typer.own_nodes(func):
+        if isinstance(n, ast.Assign) and len(n.targets) == 1 and isinstance(n.targets[0], ast.Name):
+            v = n.value
+            lazy = isinstance(v, ast.GeneratorExp) or (isinstance(v, ast.Call) and src(v.func).split('.')[-1] in _LAZY - {'glob', 'iterdir', 'scandir'} and not isinstance(v.func, ast.Attribute)) or \
+                (isinstance(v, ast.Call) and isinstance(v.func, ast.Attribute) and v.func.attr in ('iterdir', 'iglob', 'glob', 'rglob', 'scandir') and False)
+            defs.setdefault(n.targets[0].id, []).append((n, lazy))
+        elif isinstance(n, (ast.For, ast.AugAssign, ast.NamedExpr, ast.comprehension)):
+            tg = n.target
+            for x in ast.walk(tg):
+                if isinstance(x, ast.Name):
+                    defs.setdefault(x.id, []).append((n, False))
+
+    def loops_of(node):
+        p = getattr(node, '_parent', None)
+        res = []
+        while p is not None and not isinstance(p, (ast.FunctionDef, ast.AsyncFunctionDef, ast.Lambda)):
+            if isinstance(p, (ast.For, ast.AsyncFor, ast.While)):
+                res.append(p)
+            p = getattr(p, '_parent', None)
+        return res
+
+    for name, ds in defs.items():
+        if len(ds) != 1 or not ds[0][1]:
+            continue
+        dnode = ds[0][0]
+        sites = consumption_sites(A, func, name)
+        def_loops = set(map(id, loops_of(dnode)))
+        for st in sites:
+            anchor = st if not isinstance(st, ast.comprehension) else getattr(st, '_parent', st)
+            outer = [lp for lp in loops_of(anchor) if id(lp) not in def_loops and lp is not st]
+            if outer:
+                out.append((name, dnode, st))
+                break
+        else:
+            tw = consumed_more_than_once(A, func, name)
+            if tw is not None:
+                out.append((name, dnode, tw[1]))
+    return out
+
+
+def part_stores(A: Analysis):
+    """Stores to `self._part` in Config.__init__ that can change it from the `part` argument: [(node, guarded)] where guarded means
+    the store only runs when the path contains `#` (so an explicitly passed part survives for paths without one)."""
+    cfgc = A.cls('Config')
+    finit = cfgc.lookup('__init__')
+    cfg = A.cfg(finit)
+    out = []
+    for n in A.typer.own_nodes(finit):      # the part selection in _get_part (main part when none was asked for) is another matter
+        if not (isinstance(n, ast.Assign) and any(src(x) == 'self._part' for t_ in n.targets for x in ([t_] + (list(t_.elts) if isinstance(t_, (ast.Tuple, ast.List)) else [])))):
+            continue
+        direct = any(src(t_) == 'self._part' for t_ in n.targets)
+        if direct:
+            ts = A.sym.terms_at(finit, ('inst', cfgc), [n.value]).get(id(n.value), [])
+            if ts and all(t == ('p', 'part') for t in ts):
+                continue        # the argument as given
+        guarded = all(any(("'#' in " in t_ and pol) or ("'#' not in " in t_ and not pol) for t_, pol in facts_text(A, finit, cfg, cn.id)) for cn in cfg_nodes_for(cfg, n))
+        out.append((n, guarded))
+    return finit, out
